@@ -12,6 +12,9 @@ func init() {
 			"at the guard. Not decided: that operands (sizes, merkle roots, median times, difficulty) are computed correctly.",
 		run: func(p *Program, r *Report) {
 			checkGuardsFile(p, r, "C01.guards")
+			checkGuardsFile(p, r, "C01.order")
+			r.need("order", 8)
+			r.need("mustpass", 8)
 			r.need("guard", 250)
 		},
 	})
